@@ -32,6 +32,15 @@ type selPlan struct {
 	PerG    []int  // selections per selector
 	DialG   []bool // selector g uses DialStream (TCP only)
 	Seq2    []bool
+
+	// the group's other protocol side (round 6): "" = left out of the configuration, otherwise its own
+	// policy (round-robin | random | availability | latency | min-max-latency; a probing side's probe
+	// service is registered but never started here, so it keeps serving its initial member) over its own
+	// member list in its own order. Interleave: the other side is used between this side's selections
+	// (and by one more goroutine during the burst) - the two sides must not disturb each other.
+	Other        string
+	OtherMembers []int
+	Interleave   bool
 }
 
 func envInt(name string, def int) int {
@@ -75,6 +84,16 @@ func drawSelPlan(rt *rapid.T) *selPlan {
 		p.DialG[g] = rapid.Bool().Draw(rt, "dialG")
 	}
 	p.Seq2 = rapid.SliceOfN(rapid.Bool(), 0, 2*n+1).Draw(rt, "seq2")
+	opposite := polRandom
+	if p.Policy == polRandom {
+		opposite = polRoundRobin
+	}
+	p.Other = rapid.SampledFrom([]string{"", opposite, opposite, polRoundRobin, polRandom, polAvailability, polLatency, polMinMax}).Draw(rt, "other")
+	if p.Other != "" {
+		n2 := rapid.IntRange(1, min(5, p.Fakes)).Draw(rt, "otherN")
+		p.OtherMembers = rapid.Permutation(ids).Draw(rt, "otherPerm")[:n2]
+		p.Interleave = rapid.Bool().Draw(rt, "interleave")
+	}
 	return p
 }
 
@@ -83,6 +102,10 @@ type selStats struct {
 	startPos   int // configuration position of the very first selection (-1 unknown)
 	allSeen    bool
 	dupMembers bool
+
+	otherSelections   int
+	otherFullCycle    bool // the other side is round-robin and handed out at least one full cycle of >= 2 members
+	omittedRegistered bool
 }
 
 // selector abstracts "ask the group once, tell me which fake it was"; returns -1 with a reason
@@ -117,58 +140,131 @@ func runSelPlan(p *selPlan) (viol string, st selStats) {
 		isMember[id] = true
 	}
 	cfg := clientgroups.ClientGroupConfig{Name: "grp"}
-	// the other protocol's side gets a group too (as in a real configuration) with the opposite policy
-	other := polRandom
-	if p.Policy == polRandom {
-		other = polRoundRobin
+	// the other protocol's side: left out, or a group of its own policy over its own members
+	var otherNames []string
+	isOtherMember := make([]bool, p.Fakes)
+	for _, id := range p.OtherMembers {
+		otherNames = append(otherNames, fmt.Sprintf("c%d", id))
+		isOtherMember[id] = true
 	}
 	if p.Proto == "tcp" {
 		cfg.TCP.Policy, cfg.TCP.Clients = clientgroups.ClientSelectionPolicy(p.Policy), names
-		cfg.UDP.Policy, cfg.UDP.Clients = clientgroups.ClientSelectionPolicy(other), names
+		cfg.UDP.Policy, cfg.UDP.Clients = clientgroups.ClientSelectionPolicy(p.Other), otherNames
 	} else {
 		cfg.UDP.Policy, cfg.UDP.Clients = clientgroups.ClientSelectionPolicy(p.Policy), names
-		cfg.TCP.Policy, cfg.TCP.Clients = clientgroups.ClientSelectionPolicy(other), names
+		cfg.TCP.Policy, cfg.TCP.Clients = clientgroups.ClientSelectionPolicy(p.Other), otherNames
 	}
+	otherProbing := p.Other != "" && p.Other != polRoundRobin && p.Other != polRandom
 	svcs := 0
 	if err := cfg.AddClientGroup(zap.NewNop(), tcpMap, udpMap, func(shadowsocks.Service) { svcs++ }); err != nil {
 		return "HARNESS: AddClientGroup: " + err.Error(), st
 	}
-	if svcs != 0 {
-		return fmt.Sprintf("HARNESS: %d probe services for probe-less policies", svcs), st
+	if want := map[bool]int{false: 0, true: 1}[otherProbing]; svcs != want {
+		fail("probe-services", "%d probe services registered, but the configuration has %d side(s) with a probing policy (other side %q)", svcs, want, p.Other)
+		return viol, st
 	}
 	tcpGroup, udpGroup := tcpMap["grp"], udpMap["grp"]
-	if tcpGroup == nil || udpGroup == nil {
+	if p.Other == "" {
+		// the side without clients is left out (measured only)
+		if p.Proto == "tcp" {
+			st.omittedRegistered = udpGroup != nil
+		} else {
+			st.omittedRegistered = tcpGroup != nil
+		}
+	} else if tcpGroup == nil || udpGroup == nil {
 		return "HARNESS: group not added to the client maps", st
 	}
+	if (p.Proto == "tcp" && tcpGroup == nil) || (p.Proto == "udp" && udpGroup == nil) {
+		return "HARNESS: group not added to the client map", st
+	}
 
-	var sel selector
 	uctx := userCtx()
-	if p.Proto == "tcp" {
-		sel = func(viaDial bool) (int, string) {
-			if viaDial {
-				_, err := tcpGroup.DialStream(uctx, probeUserAddr, nil)
-				ue, ok := err.(*userDialErr)
-				if !ok || ue.id < 0 || ue.id >= p.Fakes {
-					return -1, fmt.Sprintf("DialStream: %v", err)
+	mkSel := func(proto string) selector {
+		var sel selector
+		if proto == "tcp" {
+			sel = func(viaDial bool) (int, string) {
+				if viaDial {
+					_, err := tcpGroup.DialStream(uctx, probeUserAddr, nil)
+					ue, ok := err.(*userDialErr)
+					if !ok || ue.id < 0 || ue.id >= p.Fakes {
+						return -1, fmt.Sprintf("DialStream: %v", err)
+					}
+					return ue.id, ""
 				}
-				return ue.id, ""
+				d, info := tcpGroup.NewStreamDialer()
+				f, ok := d.(*fakeTCP)
+				if !ok || f.id < 0 || f.id >= p.Fakes || tcpFakes[f.id] != f || info.Name != f.name {
+					return -1, fmt.Sprintf("NewStreamDialer: %T %v info %q", d, d, info.Name)
+				}
+				return f.id, ""
 			}
-			d, info := tcpGroup.NewStreamDialer()
-			f, ok := d.(*fakeTCP)
-			if !ok || f.id < 0 || f.id >= p.Fakes || tcpFakes[f.id] != f || info.Name != f.name {
-				return -1, fmt.Sprintf("NewStreamDialer: %T %v info %q", d, d, info.Name)
+		} else {
+			sel = func(bool) (int, string) {
+				info, sess, err := udpGroup.NewSession(uctx)
+				id := sess.MaxPacketSize - 1000
+				if err != nil || id < 0 || id >= p.Fakes || info.Name != udpFakes[id].name {
+					return -1, fmt.Sprintf("NewSession: info %q mps %d err %v", info.Name, sess.MaxPacketSize, err)
+				}
+				return id, ""
 			}
-			return f.id, ""
 		}
-	} else {
-		sel = func(bool) (int, string) {
-			info, sess, err := udpGroup.NewSession(uctx)
-			id := sess.MaxPacketSize - 1000
-			if err != nil || id < 0 || id >= p.Fakes || info.Name != udpFakes[id].name {
-				return -1, fmt.Sprintf("NewSession: info %q mps %d err %v", info.Name, sess.MaxPacketSize, err)
-			}
-			return id, ""
+		return sel
+	}
+	sel := mkSel(p.Proto)
+
+	// the other side, used in between: every answer must be one of ITS members; round-robin (sequential
+	// use only) must follow ITS configured cycle; a probing side whose probes never ran keeps one member
+	var (
+		otherSel    selector
+		otherCands  []bool
+		otherTicket int
+		otherFirst  = -1
+	)
+	if p.Other != "" {
+		otherSel = mkSel(map[string]string{"tcp": "udp", "udp": "tcp"}[p.Proto])
+		otherCands = make([]bool, len(p.OtherMembers))
+		for i := range otherCands {
+			otherCands[i] = true
 		}
+	}
+	useOther := func(phase string, sequential bool) bool {
+		id, why := otherSel(otherTicket%2 == 1)
+		if id < 0 || !isOtherMember[id] {
+			if id >= 0 {
+				why = fmt.Sprintf("fake c%d is not a member of that side (members %v)", id, p.OtherMembers)
+			}
+			fail("mixed-outside-group", "%s: other side (%s) selection: %s", phase, p.Other, why)
+			return false
+		}
+		if !sequential {
+			return true
+		}
+		st.otherSelections++
+		n2 := len(p.OtherMembers)
+		switch {
+		case p.Other == polRoundRobin:
+			any := false
+			for s := range otherCands {
+				if otherCands[s] && p.OtherMembers[(s+otherTicket)%n2] != id {
+					otherCands[s] = false
+				}
+				any = any || otherCands[s]
+			}
+			if !any {
+				fail("mixed-cyclic-order", "%s: other side (round-robin over %v) selection %d went to c%d: not the next one of its own cycle", phase, p.OtherMembers, otherTicket, id)
+				return false
+			}
+			st.otherFullCycle = st.otherFullCycle || (n2 >= 2 && otherTicket+1 >= n2)
+		case otherProbing:
+			if otherFirst < 0 {
+				otherFirst = id
+			} else if id != otherFirst {
+				fail("mixed-switch-without-probe", "%s: other side (%s, probes never started) moved from c%d to c%d", phase, p.Other, otherFirst, id)
+				return false
+			}
+		}
+		otherTicket++
+		return true
 	}
 
 	// Oracle state for round-robin: the set of cycle offsets s still consistent with everything
@@ -202,6 +298,9 @@ func runSelPlan(p *selPlan) (viol string, st selStats) {
 	sequential := func(phase string, via []bool) bool {
 		var got []int
 		for _, v := range via {
+			if p.Interleave && !useOther(phase, true) {
+				return false
+			}
 			id, why := sel(v)
 			if !check(phase, id, why) {
 				return false
@@ -248,8 +347,34 @@ func runSelPlan(p *selPlan) (viol string, st selStats) {
 			results[g] = out
 		}()
 	}
+	otherBad := false
+	if p.Interleave {
+		// one more goroutine keeps the other side busy during the burst
+		wg.Add(1)
+		go func() {
+			defer wg.Done()
+			<-startCh
+			for k := 0; k < 64 && !otherBad; k++ {
+				id, _ := otherSel(k%2 == 1)
+				if id < 0 || !isOtherMember[id] {
+					otherBad = true
+				}
+			}
+		}()
+	}
 	close(startCh)
 	wg.Wait()
+	if otherBad {
+		fail("mixed-outside-group", "other side (%s over %v) returned a non-member while this side was under concurrent selection", p.Other, p.OtherMembers)
+		return viol, st
+	}
+	if p.Interleave && p.Other == polRoundRobin {
+		// 64 unobserved tickets went by on the other side: restart its cycle bookkeeping
+		for i := range otherCands {
+			otherCands[i] = true
+		}
+		otherTicket = 0
+	}
 	counts := make([]int, p.Fakes)
 	N := 0
 	for g, out := range results {
@@ -308,8 +433,12 @@ func runSelPlan(p *selPlan) (viol string, st selStats) {
 	}
 	// decoys must never have been reached (cross-check of the per-call identification)
 	for id := 0; id < p.Fakes; id++ {
-		if !isMember[id] && (tcpFakes[id].userDials.Load() != 0 || udpFakes[id].userSessions.Load() != 0) {
-			fail("outside-group", "non-member c%d was used", id)
+		mainUsed, otherUsed := tcpFakes[id].userDials.Load() != 0, udpFakes[id].userSessions.Load() != 0
+		if p.Proto == "udp" {
+			mainUsed, otherUsed = otherUsed, mainUsed
+		}
+		if (!isMember[id] && mainUsed) || (!isOtherMember[id] && otherUsed) {
+			fail("outside-group", "c%d was used through a side it is not a member of (this side %v, other side %v)", id, p.Members, p.OtherMembers)
 		}
 	}
 	return viol, st
@@ -317,10 +446,13 @@ func runSelPlan(p *selPlan) (viol string, st selStats) {
 
 var recSel = ev.New("C19", "round-robin-random",
 	"rapid plan with real goroutines: group built by ClientGroupConfig.AddClientGroup (TCP side via NewStreamDialer/DialStream, UDP side via NewSession; 1..5 (7 in 8 cases) or 13..24 (1 in 8) members in a drawn order, "+
-		"1 in 8 with a client listed twice, 0..2 registered non-member decoys); sequential prefix (0..3n+2 selections), burst of 2..16 goroutines released together with 1..VERIF_C19_PERG selections each, sequential suffix. "+
+		"1 in 8 with a client listed twice, 0..2 registered non-member decoys); the other protocol side left out (1 in 8) or configured with its own policy (round-robin, random, or a probing policy whose probes are never started) over its own 1..5 members in its own order, "+
+		"in half of those cases used between this side's sequential selections and by one more goroutine during the burst (its answers must be its own members, its round-robin its own cycle; this side's cycle must not notice); sequential prefix (0..3n+2 selections), burst of 2..16 goroutines released together with 1..VERIF_C19_PERG selections each, sequential suffix. "+
 		"Oracle round-robin: exists a cycle offset s such that sequential ticket j goes to Members[(s+j) mod n] throughout, and the burst's per-client counts equal those of its consecutive ticket range; "+
 		"random and all policies: every selection is a member. Non-trivial: >=3 members, >=2 goroutines with >= 2n selections in total, round-robin additionally with non-empty prefix and suffix; distinct key = proto|policy|members|G|prefix/burst/suffix sizes").
-	Require("policy/round-robin", "policy/random", "proto/tcp", "proto/udp", "dup-member", "decoys", "burst-not-multiple-of-n", "n>=3", "group>12", "group>12/round-robin", "group>12/random")
+	Require("policy/round-robin", "policy/random", "proto/tcp", "proto/udp", "dup-member", "decoys", "burst-not-multiple-of-n", "n>=3", "group>12", "group>12/round-robin", "group>12/random",
+		"other-side-omitted", "mixed/other=round-robin", "mixed/other=random", "mixed/other=probing", "mixed/tcp=round-robin+other=probing", "mixed/udp=round-robin+other=probing", "mixed/other=min-max-latency",
+		"mixed/other-members-differ", "mixed/interleaved", "mixed/both-round-robin-interleaved", "mixed/other-round-robin-full-cycle")
 
 // TestRoundRobinRandom decides the round-robin (cyclic, none skipped, also under concurrent
 // selection) and random (members only) clauses of C19.
@@ -358,6 +490,32 @@ func TestRoundRobinRandom(t *testing.T) {
 		}
 		if st.allSeen {
 			labels = append(labels, "all-members-served")
+		}
+		switch {
+		case p.Other == "":
+			labels = append(labels, "other-side-omitted")
+			if st.omittedRegistered {
+				labels = append(labels, "omitted-side-registered")
+			}
+		case p.Other == polRoundRobin || p.Other == polRandom:
+			labels = append(labels, "mixed", "mixed/other="+p.Other)
+		default:
+			labels = append(labels, "mixed", "mixed/other=probing", "mixed/other="+p.Other, "mixed/"+p.Proto+"="+p.Policy+"+other=probing")
+		}
+		if p.Other != "" {
+			if fmt.Sprint(p.OtherMembers) != fmt.Sprint(p.Members) {
+				labels = append(labels, "mixed/other-members-differ")
+			}
+			if p.Interleave && st.otherSelections > 0 {
+				labels = append(labels, "mixed/interleaved")
+				if p.Policy == polRoundRobin && p.Other == polRoundRobin && n >= 2 && len(p.OtherMembers) >= 2 {
+					labels = append(labels, "mixed/both-round-robin-interleaved")
+				}
+			}
+			if st.otherFullCycle {
+				labels = append(labels, "mixed/other-round-robin-full-cycle")
+			}
+			recSel.Label("mixed/other-side-selections", int64(st.otherSelections))
 		}
 		if p.Policy == polRoundRobin && st.startPos > 0 && len(p.Seq1) > 0 {
 			labels = append(labels, "first-served-not-first-configured")
